@@ -190,7 +190,7 @@ def r1(db, rep):
                 n += 1
                 r.decide(k == 1 and "e_entry" in raw, "%s|return" % d, db.where(hb),
                          "program_entry returns e_entry with the base added %d times" % k)
-    r.floor(20, "address sinks in the ELF loader and linker")
+    r.floor(14, "address sinks in the ELF loader and linker")     # 20 on the pinned tree
 
 
 def r2(db, rep):
